@@ -811,6 +811,9 @@ func CheckDumpRef(dir string, src DBSpec, loadBatch int, allowCheckpoint bool, r
 				return fmt.Sprintf("manifest entry of graph %q differs from the uninterrupted dump's", b.Name)
 			}
 		}
+		if fmt.Sprint(m.Schema) != fmt.Sprint(ref.Schema) {
+			return fmt.Sprintf("manifest schema block %+v differs from the uninterrupted dump's %+v", m.Schema, ref.Schema)
+		}
 		if (m.Metrics == nil) != (ref.Metrics == nil) {
 			return "metrics block presence differs from the uninterrupted dump's"
 		}
